@@ -184,6 +184,62 @@ pub const FAMILIES: [Family; 31] = [
     ("one long identifier", |n| format!("({} => 1)", rep("ab", n * 4))),
 ];
 
+/// Families built from a table: a three-operand chain of each kind (application, `*` `/`, `+` `-`)
+/// nested n levels deep in its head, middle or last operand, the two other operands
+/// parenthesised or not in every combination. The passes that re-associate chains treat a
+/// parenthesised operand differently from a bare one at every position, so each combination is a
+/// different path through them.
+pub fn chain_nest_families() -> Vec<(String, Box<dyn Fn(usize) -> String + Send + Sync>)> {
+    let mut out: Vec<(String, Box<dyn Fn(usize) -> String + Send + Sync>)> = vec![];
+    let kinds: [(&str, &str, &str, &str, [&str; 3]); 3] = [
+        ("application", " ", " ", "f => ", ["f", "1", "2"]),
+        ("product / quotient", " * ", " / ", "", ["6", "3", "2"]),
+        ("sum / difference", " + ", " - ", "", ["6", "3", "2"]),
+    ];
+    for (kind, op1, op2, head, atoms) in kinds {
+        for pos in 0..3usize {
+            for mask in 0..4usize {
+                let others: Vec<usize> = (0..3).filter(|i| *i != pos).collect();
+                let mut opnd: Vec<String> = atoms.iter().map(|a| (*a).to_owned()).collect();
+                let mut desc = vec![];
+                for (bit, i) in others.iter().enumerate() {
+                    if mask >> bit & 1 == 1 {
+                        opnd[*i] = format!("({})", atoms[*i]);
+                        desc.push(["head", "middle", "last"][*i]);
+                    }
+                }
+                let base = format!("{}{op1}{}{op2}{}", atoms[0], atoms[1], atoms[2]);
+                let (prefix, suffix) = match pos {
+                    0 => ("(".to_owned(), format!("){op1}{}{op2}{}", opnd[1], opnd[2])),
+                    1 => (format!("{}{op1}(", opnd[0]), format!("){op2}{}", opnd[2])),
+                    _ => (format!("{}{op1}{}{op2}(", opnd[0], opnd[1]), ")".to_owned()),
+                };
+                let name = format!(
+                    "{kind} chain nested in its {} operand, parenthesised besides: {}",
+                    ["head", "middle", "last"][pos],
+                    if desc.is_empty() { "none".to_owned() } else { desc.join(" and ") }
+                );
+                let head = head.to_owned();
+                out.push((name, Box::new(move |n| format!("{head}{}{base}{}", prefix.repeat(n), suffix.repeat(n)))));
+            }
+        }
+    }
+    out
+}
+
+fn family(fam: usize) -> (String, Box<dyn Fn(usize) -> String + Send + Sync>) {
+    if fam < FAMILIES.len() {
+        let (name, build) = FAMILIES[fam];
+        (name.to_owned(), Box::new(build))
+    } else {
+        chain_nest_families().swap_remove(fam - FAMILIES.len())
+    }
+}
+
+pub fn family_count() -> usize {
+    FAMILIES.len() + chain_nest_families().len()
+}
+
 pub const VARIANTS: [&str; 5] = ["well-formed", "second half dropped", "closing brackets dropped", "operator doubled in the middle", "stray closing bracket in the middle"];
 
 pub fn dmg(text: &str, variant: usize) -> String { damage(text, variant) }
@@ -216,7 +272,7 @@ fn damage(text: &str, variant: usize) -> String {
 }
 
 fn run_family(ctx: &Ctx, fam: usize, variant: usize, max_n: usize) {
-    let (name, build) = FAMILIES[fam];
+    let (name, build) = family(fam);
     let mut prev: Option<(usize, Measure)> = None;
     let mut slow_doublings = 0;
     let mut rate_jumps = 0;
@@ -333,7 +389,7 @@ pub fn def(tier: Tier) -> CheckDef {
     CheckDef {
         id: "C17",
         level: "exploration",
-        rule: "31 input families parameterised by n (nested parentheses, groups nested in the head / middle / last position of application, product and sum chains, binder-looking prefixes, operator / application / arrow / negation chains, nested lambdas of three kinds, nested conditionals in each position, definition sequences, definitions sharing dependencies (the definition-order check walks them), nested groups, long tokens) x 5 variants (well-formed, second half dropped, closing brackets dropped, operator doubled, stray closing bracket), n doubling from 6 to 1536 (quick) / 6144 (thorough), plus proptest-generated random compositions with the same damages; oracle = the number of parsing-function calls (hook counter in cache_check!, hit or miss) stays below 250 per token, the number of calls of the passes that run over the parsed term afterwards (second hook counter: re-association, variable resolution, definition-order check) stays below 40 per token (about 4x the largest ratio observed on the pinned tree), and the per-token rate of parsing calls does not rise by more than 1.3x on two successive doublings for n >= 100; CPU time growing more than 12x on two successive doublings is also a violation; a hang is caught by the watchdog and attributed to the announced (family, variant, n); non-trivial = a (family, variant, n) triple with n >= 100 or a random composition of >= 100 tokens; distinct by label / text",
+        rule: "67 input families parameterised by n (nested parentheses, three-operand application / product / sum chains nested in their head, middle or last operand with the other operands parenthesised or not in all 36 combinations, groups nested in the head / middle / last position of application, product and sum chains, binder-looking prefixes, operator / application / arrow / negation chains, nested lambdas of three kinds, nested conditionals in each position, definition sequences, definitions sharing dependencies (the definition-order check walks them), nested groups, long tokens) x 5 variants (well-formed, second half dropped, closing brackets dropped, operator doubled, stray closing bracket), n doubling from 6 to 1536 (quick) / 6144 (thorough), plus proptest-generated random compositions with the same damages; oracle = the number of parsing-function calls (hook counter in cache_check!, hit or miss) stays below 250 per token, the number of calls of the passes that run over the parsed term afterwards (second hook counter: re-association, variable resolution, definition-order check) stays below 40 per token (about 4x the largest ratio observed on the pinned tree), and the per-token rate of parsing calls does not rise by more than 1.3x on two successive doublings for n >= 100; CPU time growing more than 12x on two successive doublings is also a violation; a hang is caught by the watchdog and attributed to the announced (family, variant, n); non-trivial = a (family, variant, n) triple with n >= 100 or a random composition of >= 100 tokens; distinct by label / text",
         assumptions: vec![
             "work is measured by the hook counter (deterministic), CPU time only as a coarse second gate",
             "the constant 250 calls per token was calibrated on the pinned tree as about 4x the largest observed ratio",
@@ -347,7 +403,7 @@ pub fn def(tier: Tier) -> CheckDef {
                 rounds: 1,
                 run: Box::new(move |ctx, _| {
                     let mut k = 0u32;
-                    for fam in 0..FAMILIES.len() {
+                    for fam in 0..family_count() {
                         for variant in 0..VARIANTS.len() {
                             if k % ctx.nshards == ctx.shard {
                                 run_family(ctx, fam, variant, max_n);
